@@ -90,6 +90,29 @@ def handle : Handler := fun op args impl =>
     let e := plus (Spec.numGapsUnique rows L.toNat) ++ " " ++ z ++ " " ++ z ++ " " ++
       plus (Spec.numMutationsUnique rows L.toNat alpha) ++ " " ++ z ++ " " ++ z
     some ⟨g ++ " " ++ z ++ " " ++ z ++ " " ++ mu ++ " " ++ z ++ " " ++ z, verdictOf (impl == e) "uniques-naive"⟩
+  | "profile", [_, rows, code, site] => do
+    let rows ← decRows rows
+    let code ← code.toNat?
+    let site ← parseInt? site
+    let L := lenOf rows
+    let r := UInt8.ofNat code
+    let encCnt (o : Option Nat) : String := match o with | some n => "ok:" ++ toString n | none => "err"
+    let render (header : List Byte) (counts : List (List Nat)) (cnt : String) : String :=
+      (if header.isEmpty then "-" else hexOfBytes header) ++ " " ++ strJoin (counts.map plus) ++ " " ++ cnt ++ " " ++
+        (if header.isEmpty then "11" else "10")
+    let m := match countProfile rows L with
+      | none => "panic"
+      | some prof =>
+        match profileCount prof r site with
+        | none => "panic"
+        | some c => render (prof.map Prod.fst) (prof.map Prod.snd) (encCnt c)
+    -- the definition (`Gv.Spec.Stats`): header = characters in order of first appearance; count of a character at a
+    -- site = number of rows holding it there; Count is defined for the characters present and 0 ≤ site < L
+    let hdr := Spec.profileHeader rows
+    let e := render hdr (hdr.map fun c => (List.range L.toNat).map fun j => Spec.profileCountAt rows j c)
+      (encCnt (Spec.profileCount rows L.toNat r site))
+    let v := if impl.startsWith "panic" then (if code ≥ 130 then "na" else "fail:profile-crash") else verdictOf (impl == e) "profile-not-the-definition"
+    some ⟨if code > 255 then "unmodelled" else m, v⟩
   | "refmuts", [alpha, sq, rf] => do
     let alpha ← alpha.toNat?
     let s := bytesOfString sq
